@@ -538,6 +538,13 @@ impl Exception {
     pub fn molt_return_ext(value: Value, level: usize, next_code: ResultCode) -> Self {
         assert!(level > 0 || next_code != ResultCode::Okay);
 
+        // `-level 0 -code return` is a plain `return`: `-level 1 -code ok`.
+        let (level, next_code) = if level == 0 && next_code == ResultCode::Return {
+            (1, ResultCode::Okay)
+        } else {
+            (level, next_code)
+        };
+
         Self {
             code: if level > 0 {
                 ResultCode::Return
@@ -626,7 +633,13 @@ impl Exception {
         assert!(self.code == ResultCode::Return && self.level > 0);
         self.level -= 1;
         if self.level == 0 {
-            self.code = self.next_code;
+            if self.next_code == ResultCode::Return {
+                // The caller sees a plain `return`.
+                self.level = 1;
+                self.next_code = ResultCode::Okay;
+            } else {
+                self.code = self.next_code;
+            }
         }
     }
 
